@@ -566,6 +566,13 @@ pub fn gen_world(rng: &mut Rng, plan: &mut Plan, cfg: &WorldCfg) -> WorldInfo {
         let k = lo + cr.usize(cfg.max_templates - lo + 1);
         // 65535 rows: keep the files around a megabyte
         let k = if extreme { k.min(12) } else { k };
+        // round 8: 1 default-configured bigram world in 12 is wide (13-40 templates: feature rows of
+        // 2-5 eight-lane blocks, not only powers of two); decided without an extra draw
+        let k = if !extreme && cfg.max_templates == 12 && cfg.min_templates < 12 && k == 12 {
+            13 + (num_right as usize * 7 + num_left as usize * 3) % 28
+        } else {
+            k
+        };
         templates = k;
         let big = cfg.big_costs_one_in > 0 && cr.chance(1, cfg.big_costs_one_in);
         plan.set_param("big_costs", big as i64);
